@@ -151,5 +151,10 @@ class Base58XmrDecoder:
 
         Returns:
             bytes: Unpadded string
+
+        Raises:
+            ValueError: If the decoded block value does not fit the block length
         """
+        if len(dec_bytes.lstrip(b"\x00")) > unpad_len:
+            raise ValueError(f"Invalid block (value overflows {unpad_len} bytes)")
         return dec_bytes[len(dec_bytes) - unpad_len:len(dec_bytes)]
